@@ -29,7 +29,7 @@ chk("C04", "proof",
     SMT, E2, "DESIGN.md §4 C04")
 chk("C05", "proof",
     "Same whole-function encoding; each explored path is split by the solver into the data cases it serves (secant slopes at each interior knot differ in sign / one is zero, or not -- not read off the code's branch decisions); z3's nlsat decides for every case, ALL real admissible knots AND EVERY real t of each interval that the cubic is monotone and stays between the knot ordinates (no sampling of t), that the branch taken equals the sign-change predicate, zero slope at extrema, collinear data -> the straight line, and coefficient-wise equality with Kruger's formulas; the sign branch of f_dx bit-precisely in FP.",
-    "Shape claims are about the exact-arithmetic meaning of the code (no posing of monotonicity under rounding was found that nlsat finishes); 3,4 (quick) / 3..5 knots.",
+    "Shape claims are about the exact-arithmetic meaning of the code (no posing of monotonicity under rounding was found that nlsat finishes); 3,4 (quick) / 3..5 knots (the coefficient-wise Kruger identity for 3 and 4 knots; at 5 knots one of its sixteen identities does not finish in nlsat).",
     SMT, E2, "DESIGN.md §4 C05")
 chk("C06", "proof",
     "linear() executed symbolically as a whole from MIR for 2..4 (5) knots; for every path -- classified by the solver as narrower than / at least machine epsilon wide / both, independent of the code's branch polarity -- z3 proves running-maximum ends, the machine-epsilon threshold (also bit-precisely in FP, where `<` vs `<=` differs at exactly one float), constant narrow segments, the straight-line interpolant for every real t, non-vanishing divisors and the left-knot rounding bound 4u; Kani confirms ends/length/no-panic on the compiled code.",
